@@ -532,7 +532,7 @@ class Interp(object):
         it = self.ev(st.iter, fr)
         # a loop over a short sequence whose items are known one by one (a literal tuple of two components, a zip of such ...) is run item
         # by item, in order: exactly what the loop does; only when the body cannot leave the loop early
-        if it.kind in (K_TUPLE, K_LIST) and it.items is not None and 1 <= len(it.items) <= 4 and it.note != "range" and not st.orelse and \
+        if it.kind in (K_TUPLE, K_LIST) and it.items is not None and 1 <= len(it.items) <= (4 if it.note != "range" else 2) and not st.orelse and \
                 all(x is not None for x in it.items) and \
                 not any(isinstance(n, (ast.Break, ast.Continue, ast.Return)) for b in st.body for n in ast.walk(b)):
             self.stats["loops"] += 1
